@@ -53,6 +53,14 @@ def replay_roundtrip(inp):
     c = SFTPAttributes()
     c.st_size, c.st_uid, c.st_gid, c.st_mode, c.st_atime, c.st_mtime = 2 ** 40, 1000, 1001, 0o644, 1.5, 2
     cands.append(c)
+    # every field at the boundaries of its wire width (sign bit, all ones), one field at a time and all together
+    for big, small in ((2 ** 63, 2 ** 31), (2 ** 64 - 1, 2 ** 32 - 1), (2 ** 63 - 1, 2 ** 31 - 1), (0, 0)):
+        d = SFTPAttributes()
+        d.st_size = big
+        cands.append(d)
+        e = SFTPAttributes()
+        e.st_size, e.st_uid, e.st_gid, e.st_mode, e.st_atime, e.st_mtime = big, small, small, small, small, small
+        cands.append(e)
     for x in cands:
         why = check(x)
         if why:
